@@ -263,6 +263,16 @@ def replay_class(which, cls, byteorder, ptr_size):
 
     def replay(clause, model):
         import io
+        if "/REG/" in clause:
+            # registry clauses are statements about concrete tables: recompute them natively
+            regd = sorted(k for k, c in registry(which)[1].opcodes.items() if c is cls)
+            fb = regd[0] if regd else None
+            ent = std.get(fb)
+            want = list(range(ent[1], ent[1] + ent[2])) if ent else None
+            nf = len(list(cls._fields_and_encoders()))
+            bad = (regd != want) if "first-bytes" in clause else (ent is None or len(ent[3]) != nf)
+            return {"class": cls.__name__, "confirmed": bool(bad), "observed": "first bytes registered for decoding: %s" % (["%#x" % b for b in regd[:3]] + ["..."] + ["%#x" % b for b in regd[-2:]] if len(regd) > 5 else ["%#x" % b for b in regd]),
+                    "expected": "the standard's range %s..%s" % (("%#x" % want[0], "%#x" % want[-1]) if want else (None, None))}
         vals = {}
         pool = [expr.OpDup(), expr.OpLit(5), expr.OpConst2S(-2), expr.OpBReg(3, -9), expr.OpConstU(300)]
         for (fld, e) in cls._fields_and_encoders():
